@@ -18,6 +18,9 @@ class PageContext(BaseModel):
     total_pages: int
     data: pl.DataFrame
 
+    # Absolute index (in the section's data frame) of the first row on this page
+    row_start: int = 0
+
     # Page State
     is_first_page: bool
     is_last_page: bool
